@@ -5,7 +5,7 @@
 From Coq Require Import List ZArith Lia Bool Arith.
 Import ListNotations.
 Require Import C01.Sums C01.Batch C01.Tensor C01.OpExpr C01.Model C01.Covered.
-Require Import C01.ProofsBase C01.ProofsAlg C01.ProofsKron C01.ProofsStruct C01.ProofsMore C01.ProofsPerm C01.ProofsRepeat C01.ProofsMul C01.ProofsSize C01.ProofsMain.
+Require Import C01.ProofsBase C01.ProofsAlg C01.ProofsKron C01.ProofsStruct C01.ProofsMore C01.ProofsPerm C01.ProofsRepeat C01.ProofsMul C01.ProofsSize C01.ProofsCatBatch C01.ProofsMain.
 Open Scope Z_scope.
 
 (* ---- congruences of the dense combinators ----------------------------------------------------- *)
@@ -177,6 +177,43 @@ Proof.
     split; congruence.
 Qed.
 
+Lemma cat_tr_batch p x ops :
+  Forall tr_ok (x :: ops) -> forallb wfb (x :: ops) = true -> forallb coveredb (x :: ops) = true ->
+  (p <? length (bsh (denote x)))%nat = true ->
+  forallb (fun y => shape_eqb (bset (bsh (denote y)) p 0%nat) (bset (bsh (denote x)) p 0%nat) &&
+                    Nat.eqb (length (bsh (denote y))) (length (bsh (denote x))) &&
+                    Nat.eqb (nr (denote y)) (nr (denote x)) && Nat.eqb (nc (denote y)) (nc (denote x))) ops = true ->
+  forallb (fun y => pos (nth p (bsh (denote y)) 0%nat)) (x :: ops) = true ->
+  forallb wfb (map tr (x :: ops)) = true /\ forallb coveredb (map tr (x :: ops)) = true /\
+  (p <? length (bsh (denote (tr x))))%nat = true /\
+  forallb (fun y => shape_eqb (bset (bsh (denote y)) p 0%nat) (bset (bsh (denote (tr x))) p 0%nat) &&
+                    Nat.eqb (length (bsh (denote y))) (length (bsh (denote (tr x)))) &&
+                    Nat.eqb (nr (denote y)) (nr (denote (tr x))) && Nat.eqb (nc (denote y)) (nc (denote (tr x)))) (map tr ops) = true /\
+  forallb (fun y => pos (nth p (bsh (denote y)) 0%nat)) (map tr (x :: ops)) = true /\
+  dcat (map denote (map tr (x :: ops))) (CatBatch p) == dtr (dcat (map denote (x :: ops)) (CatBatch p)).
+Proof.
+  intros HF HW HC HP HS HPos. destruct (tr_list (x :: ops) HF HW HC) as (L1 & L2 & L3).
+  destruct (tr_list_shapes (x :: ops) L3) as (E1 & E2).
+  assert (HS' : forall y, In y (x :: ops) -> bset (bsh (denote y)) p 0%nat = bset (bsh (denote x)) p 0%nat /\
+                 length (bsh (denote y)) = length (bsh (denote x)) /\ nr (denote y) = nr (denote x) /\ nc (denote y) = nc (denote x)).
+  { intros y [<-|Hy]; [auto|]. rewrite forallb_forall in HS. specialize (HS y Hy). bsplit. auto. }
+  destruct (E2 x (or_introl eq_refl)) as (b1 & b2 & b3).
+  split; [exact L1|]. split; [exact L2|]. split; [rewrite b3; exact HP|]. split; [|split].
+  - rewrite forallb_map. rewrite forallb_forall. intros y Hy.
+    destruct (E2 y (or_intror Hy)) as (a1 & a2 & a3). destruct (HS' y (or_intror Hy)) as (c1 & c2 & c3 & c4).
+    rewrite a1, a2, a3, b1, b2, b3, c1, c2, c3, c4.
+    repeat (apply andb_true_iff; split); try apply Nat.eqb_refl. apply shape_eqb_eq. reflexivity.
+  - rewrite forallb_map. rewrite forallb_forall in *. intros y Hy. destruct (E2 y Hy) as (a1 & a2 & a3). rewrite a3. apply HPos. exact Hy.
+  - change (map denote (map tr (x :: ops))) with (denote (tr x) :: map denote (map tr ops)).
+    eapply BTeq_trans; [apply (dcat_batch_eq p _ _ (dtr (denote x)) (map dtr (map denote ops))); [|exact L3|]
+                       |apply BTeq_sym; apply (dtr_dcat_batch p (denote x) (map denote ops))].
+    + rewrite b3. apply Nat.ltb_lt. exact HP.
+    + intros C HCin. change (denote (tr x) :: map denote (map tr ops)) with (map denote (map tr (x :: ops))) in HCin.
+      rewrite map_map in HCin. apply in_map_iff in HCin. destruct HCin as [y [<- Hy]].
+      destruct (E2 y Hy) as (a1 & a2 & a3). destruct (HS' y Hy) as (c1 & c2 & c3 & c4).
+      rewrite a1, a2, a3, b1, b2, b3. auto.
+Qed.
+
 Ltac trih :=
   repeat match goal with
          | IH : tr_ok ?e, HW : wfb ?e = true, HC : coveredb ?e = true |- _ =>
@@ -281,7 +318,8 @@ Proof.
   - (* SumBatch *)
     tsplit; [wfsolve|wfsolve|]. simpl. eapply BTeq_trans; [apply dsumbatch_eq; exact TD|apply BTeq_sym; apply dtr_dsumbatch].
   - (* BatchRepeat *)
-    tsplit; [wfsolve|wfsolve|].
+    tsplit; [wfsolve| |].
+    { unfold covered. simpl. rwshapes. rewrite (Nat.eqb_sym (nc (denote e)) (nr (denote e))). apply andb_true_iff; split; assumption. }
     simpl. eapply BTeq_trans; [apply drepeat_eq; [rewrite SB; assumption|exact TD]|apply BTeq_sym; apply dtr_drepeat].
   - (* Cat *) destruct ops as [|x ops]; [discriminate|]. destruct ops as [|x2 ops]; [discriminate|].
     destruct d; try discriminate.
@@ -289,6 +327,8 @@ Proof.
       unfold wf, covered. cbn [tr wfb coveredb denote]. cbn [map] in *. rewrite K1, K2, K3. tsplit; [reflexivity|reflexivity|exact K4].
     + destruct (cat_tr_cols x (x2 :: ops)) as (K1 & K2 & K3 & K4); try assumption.
       unfold wf, covered. cbn [tr wfb coveredb denote]. cbn [map] in *. rewrite K1, K2, K3. tsplit; [reflexivity|reflexivity|exact K4].
+    + bsplit. destruct (cat_tr_batch p x (x2 :: ops)) as (K1 & K2 & K3 & K4 & K5 & K6); try assumption.
+      unfold wf, covered. cbn [tr wfb coveredb denote]. cbn [map] in *. rewrite K1, K2, K3, K4, K5. tsplit; [reflexivity|reflexivity|exact K6].
   - (* Interpolated *)
     tsplit; [|assumption|].
     + unfold wf. simpl. rwshapes. repeat (apply andb_true_iff; split); try assumption; try (apply shape_eqb_eq; congruence);
@@ -366,6 +406,23 @@ Proof.
   eapply BTeq_trans; [apply dmm_eq_l; [simpl; exact HB|apply dtr_dtr]|].
   apply dmm_eq_r; [exact HB|simpl; symmetry; exact HN|apply dtr_dtr].
 Qed.
+
+(* v @ op for a 1-D v (as an n x 1 matrix):  op.mT.matmul(v)  is  D^T v *)
+Theorem rmatvec_correct e v : wf e -> covered e -> nr v = nr (denote e) -> bcompat (bsh (denote e)) (bsh v) = true ->
+  pub_rmatvec e v == dmm (dtr (denote e)) v.
+Proof.
+  intros HW HC HN HB. destruct (tr_correct e HW HC) as (TW & TC & TD). destruct (tr_shape e TD) as (S1 & S2 & S3).
+  unfold pub_rmatvec.
+  eapply BTeq_trans; [apply (pub_correct (tr e) TW TC); split; [congruence|rewrite S1; exact HB]|].
+  apply dmm_eq_l; [rewrite S1; exact HB|exact TD].
+Qed.
+
+(* shape / size() / dim() / numel() / batch_shape / matrix_shape: all derived from _size() *)
+Theorem accessors_correct e : wf e ->
+  pub_shape e = (bsh (denote e), nr (denote e), nc (denote e)) /\
+  pub_dim e = (length (bsh (denote e)) + 2)%nat /\
+  pub_numel e = (bnumel (bsh (denote e)) * nr (denote e) * nc (denote e))%nat.
+Proof. intros HW. unfold pub_shape, pub_dim, pub_numel. rewrite (sz_correct e HW). repeat split. Qed.
 
 (* LinearOperator.to_dense (default): matmul with the identity on the smaller side *)
 Lemma default_to_dense_correct e : wf e -> covered e -> default_to_dense e == denote e.
@@ -470,7 +527,7 @@ Proof.
   - (* SumBatch *) simpl. apply dsumbatch_eq. apply IHe; assumption.
   - (* Cat *) destruct ops as [|x ops]; [discriminate|]. destruct ops as [|x2 ops]; [discriminate|].
     assert (HCc : forallb coveredb (x :: x2 :: ops) = true) by (destruct d; try discriminate; assumption).
-    pose proof (td_list _ H H0 HCc) as HL. destruct (Forall2_shapes _ _ HL) as (E1 & E2 & E3).
+    pose proof (td_list _ H ltac:(assumption) HCc) as HL. destruct (Forall2_shapes _ _ HL) as (E1 & E2 & E3).
     cbn [td denote]. cbn [map] in *.
     assert (HSh : forall C, In C (td x :: td x2 :: map td ops) -> exists y, In y (x :: x2 :: ops) /\ C = td y).
     { intros C HCin. change (td x :: td x2 :: map td ops) with (map td (x :: x2 :: ops)) in HCin.
@@ -480,10 +537,15 @@ Proof.
     destruct d; try discriminate.
     + apply dcat_rows_eq; [exact HL|]. intros C HCin. destruct (HSh C HCin) as [y [Hy ->]].
       destruct (HTy y Hy) as (a1 & a2 & a3). destruct (HTy x (or_introl eq_refl)) as (b1 & b2 & b3).
-      destruct Hy as [<-|Hy]; [auto|]. rewrite forallb_forall in H1. specialize (H1 y Hy). bsplit. split; congruence.
+      destruct Hy as [<-|Hy]; [auto|]. match goal with HH : forallb _ (x2 :: ops) = true |- _ => rewrite forallb_forall in HH; specialize (HH y Hy) end. bsplit. split; congruence.
     + apply dcat_cols_eq; [exact HL|]. intros C HCin. destruct (HSh C HCin) as [y [Hy ->]].
       destruct (HTy y Hy) as (a1 & a2 & a3). destruct (HTy x (or_introl eq_refl)) as (b1 & b2 & b3).
-      destruct Hy as [<-|Hy]; [auto|]. rewrite forallb_forall in H1. specialize (H1 y Hy). bsplit. split; congruence.
+      destruct Hy as [<-|Hy]; [auto|]. match goal with HH : forallb _ (x2 :: ops) = true |- _ => rewrite forallb_forall in HH; specialize (HH y Hy) end. bsplit. split; congruence.
+    + bsplit. destruct (HTy x (or_introl eq_refl)) as (b1 & b2 & b3).
+      apply dcat_batch_eq; [rewrite b1; match goal with HH : (p <? _)%nat = true |- _ => apply Nat.ltb_lt in HH; exact HH end|exact HL|].
+      intros C HCin. destruct (HSh C HCin) as [y [Hy ->]]. destruct (HTy y Hy) as (a1 & a2 & a3). rewrite a1, a2, a3, b1, b2, b3.
+      destruct Hy as [<-|Hy]; [auto|].
+      match goal with HH : forallb _ (x2 :: ops) = true |- _ => rewrite forallb_forall in HH; specialize (HH y Hy) end. bsplit. auto.
   - (* Masked *) simpl. specialize (IHe H HC). destruct (BTeq_shape _ _ IHe) as (a1 & a2 & a3).
     apply dmask_eq; [congruence|congruence|exact IHe].
 Qed.
